@@ -50,10 +50,6 @@ func libModVars(ex *Exec, name string) []string {
 		return reg("held")
 	case "(*net.UDPConn).WriteToUDP":
 		return reg("sent")
-	case "(*bufio.Reader).ReadLine", "(*bufio.Reader).ReadByte", "(*bufio.Reader).UnreadByte", "io.ReadFull", "(*bufio.Reader).Read":
-		return reg("RS", "REP")
-	case "bufio.NewReader", "bufio.NewReaderSize":
-		return reg("RS", "REP")
 	}
 	return nil
 }
@@ -277,6 +273,15 @@ func init() {
 		"os.Getenv": func(fr *Frame, ins ssa.Instruction, a []*Val, rs *Sort) *Val {
 			return &Val{T: "(envValue " + a[0].T + ")", S: SString}
 		},
+		"(*net.UDPConn).ReadFromUDP": func(fr *Frame, ins ssa.Instruction, a []*Val, rs *Sort) *Val {
+			// n bytes read into the buffer from a non-nil source address, or an error
+			ex := fr.ex
+			n := fr.havocVal("n", SInt)
+			addr := fr.havocVal("udpaddr", SRef("net_UDPAddr"))
+			errv := fr.havocVal("readerr", SAny)
+			ex.vc.assume(imp(eq(errv.T, "anyNil"), and("(> "+addr.T+" 0)", "(>= "+n.T+" 0)", "(<= "+n.T+" (str.len "+a[1].T+"))")))
+			return tuple(n, addr, errv)
+		},
 		"net.ParseIP": func(fr *Frame, ins ssa.Instruction, a []*Val, rs *Sort) *Val {
 			// result modelled by length: 0 (nil) or 16
 			return &Val{T: "(parseIP " + a[0].T + ")", S: SString}
@@ -465,7 +470,16 @@ func (fr *Frame) callLib(ins ssa.Instruction, callee *ssa.Function, args []*Val,
 		return fr.havocVal("zap", resSort)
 	}
 	ex.vc.note("library call " + name + ": results unconstrained, no effect on tracked state")
-	return fr.havocVal("lib_"+callee.Name(), resSort)
+	r := fr.havocVal("lib_"+callee.Name(), resSort)
+	switch name {
+	case "(*net.UDPConn).LocalAddr", "(*net.UDPConn).RemoteAddr", "(*net.TCPConn).LocalAddr", "(*net.TCPConn).RemoteAddr", "go.uber.org/zap.L", "zap.L":
+		if r.S.K == KAny {
+			ex.vc.assume(not(eq(r.T, "anyNil")))
+		} else if r.S.K == KRef {
+			ex.vc.assume("(> " + r.T + " 0)")
+		}
+	}
+	return r
 }
 
 // dial models net.Dial / net.DialTCP: a fresh connection or an error; the outcome is unconstrained.
